@@ -190,6 +190,24 @@ fn words_of(mask: usize, words: &[&str]) -> String {
 /// Run-time API: all 16 sets x 4 shapes x carriers.
 pub fn api_sweep(t: &mut Tally) {
     for set_mask in 0..16usize {
+        // a panic anywhere in the API (Display included) is a finding, not a crash of the harness
+        let r = crate::catch(std::panic::AssertUnwindSafe(|| {
+            let mut local = Tally::default();
+            api_sweep_one(set_mask, &mut local);
+            local
+        }));
+        match r {
+            Ok(local) => {
+                let cur = std::mem::take(t);
+                *t = cur.merge(local);
+            }
+            Err(p) => t.violate(Violation { key: format!("C18 api set={set_mask:#06b} :: panicked: {p}"), what: format!("ShapeSet API with set {set_mask:#06b} panicked: {p}"), case: json!({"engine": "shape-api", "set": set_mask}), detail: json!({}) }),
+        }
+    }
+}
+
+fn api_sweep_one(set_mask: usize, t: &mut Tally) {
+    {
         let shapes: Vec<Shape> = SHAPES.iter().enumerate().filter(|(i, _)| set_mask >> i & 1 == 1).map(|(_, s)| s.real()).collect();
         let set = ShapeSet::new(shapes);
         let flag = |i: usize| set_mask >> i & 1 == 1;
@@ -228,6 +246,8 @@ pub fn api_sweep(t: &mut Tally) {
             }
         }
         let _ = set.to_string(); // Display must not panic for any set
+        // an empty expectation is rendered as well
+        let _ = set.check(&Shape::Named).map_err(|e| e.to_string());
     }
 }
 
@@ -285,7 +305,13 @@ pub fn main(entries: Vec<ShapeEntry>) {
                     judge("FromVariant", e.mask, &src, &want, &obs, &mut t);
                     // API == derived
                     let shapes: Vec<Shape> = (0..4).filter(|i| any || e.mask >> i & 1 == 1).map(|i| SHAPES[i].real()).collect();
-                    let api = ShapeSet::new(shapes).check(&s.real()).is_ok();
+                    let api = match crate::catch(std::panic::AssertUnwindSafe(|| ShapeSet::new(shapes).check(&s.real()).is_ok())) {
+                        Ok(a) => a,
+                        Err(p) => {
+                            t.violate(Violation { key: format!("C18 api mask={:#b} shape={s:?} :: panicked: {p}", e.mask), what: format!("ShapeSet::check panicked: {p}"), case: json!({"engine": "shape-api", "set": e.mask}), detail: json!({}) });
+                            continue;
+                        }
+                    };
                     if api != matches!(obs, Obs::Ok(_)) {
                         t.violate(Violation { key: format!("C18 api-vs-derived variant mask={:#b} shape={s:?}", e.mask), what: format!("supports({}) on {s:?}: derived code and ShapeSet API disagree", words_of(e.mask, &VWORDS)), case: json!({"engine": "shape", "mask": e.mask, "src": src, "variant_receiver": true}), detail: json!({}) });
                     }
@@ -307,7 +333,13 @@ pub fn main(entries: Vec<ShapeEntry>) {
                                 shapes.push(sh);
                             }
                         }
-                        let api = ShapeSet::new(shapes).check(&s.real()).is_ok();
+                        let api = match crate::catch(std::panic::AssertUnwindSafe(|| ShapeSet::new(shapes).check(&s.real()).is_ok())) {
+                            Ok(a) => a,
+                            Err(p) => {
+                                t.violate(Violation { key: format!("C18 api mask={:#b} src=`{src}` :: panicked: {p}", e.mask), what: format!("ShapeSet::check panicked: {p}"), case: json!({"engine": "shape-api", "set": e.mask}), detail: json!({}) });
+                                continue;
+                            }
+                        };
                         if api != matches!(obs, Obs::Ok(_)) {
                             t.violate(Violation { key: format!("C18 api-vs-derived mask={:#b} src=`{src}`", e.mask), what: format!("supports({}) on `{src}`: derived code and ShapeSet API disagree", words_of(e.mask, &WORDS)), case: json!({"engine": "shape", "mask": e.mask, "src": src}), detail: json!({}) });
                         }
